@@ -174,7 +174,16 @@ def check_minter(workdir, nres, chunk=20, limit=40, timeout=600):
     def in_long_period(x):
         return any(p["end_ms"] >= 0 and p["end_ms"] - p["start_ms"] > 9 * 10 ** 12 and p["start_ms"] < x["t_ms"] for p in x["periods"])
     longs = [x for x in allsamples if in_long_period(x)][:max(1, limit // 3)]
-    samples = longs + [x for x in allsamples if x not in longs][:limit - len(longs)]
+    # ... and a quarter to samples whose reported inflation belongs to a linear period with boundaries off the whole second
+    def lin_subsecond(x):
+        ip = x.get("infl_period")
+        if ip is None or x.get("infl") in (None, "", "0"):
+            return False
+        p = x["periods"][ip] if isinstance(ip, int) and 0 <= ip < len(x["periods"]) else None
+        return bool(p) and p["kind"] == "LIN" and p["end_ms"] >= 0 and (p["end_ms"] - p["start_ms"]) % 1000 != 0
+    subs = [x for x in allsamples if lin_subsecond(x) and x not in longs][:max(1, limit // 4)]
+    first = longs + subs
+    samples = first + [x for x in allsamples if x not in first][:limit - len(first)]
     rels = []
     for s in samples:
         for r in _minter_relations(s):
